@@ -568,7 +568,7 @@ class Session:
                 v.append(max(lo, min(hi, c)))
             vecs.append(v)
         lines = [b.line(v) for v in vecs]
-        outs = self.oracle().call(lines)
+        outs = (self.oracle() if b.which == 'oracle' else self.oracle_tu()).call(lines)
         bad = 0
         sample = None
         for v, line, out in zip(vecs, lines, outs):
